@@ -73,6 +73,7 @@ var c06Classes = []c06Class{
 	{name: "rel-short-memids", strict: true},
 	{name: "rel-short-types", strict: true},
 	{name: "plain-node-group", strict: true},
+	{name: "missing-stringtable", strict: true},
 	// grey: a column that is longer than the rows it belongs to
 	{name: "way-long-latlon"},
 	{name: "rel-roles-long"},
@@ -210,6 +211,18 @@ func c06Exec(c fw.Case) *fw.Result {
 		pos := int(c.Int("pos")) // -1 header, else data block index
 		nb := 4
 		f := c06FullFile(c.Seed, nb, c.Int("zlib") == 1)
+		if cl.name == "missing-stringtable" {
+			// a decoder that forgets to reset its string table would resolve the dangling
+			// references against the previous block's table: make every other table larger
+			// than anything the damaged block refers to, so that such a lookup stays in range
+			for bi, b := range f.Blocks {
+				if bi != pos {
+					for k := 0; k < 300; k++ {
+						b.ExtraStrings = append(b.ExtraStrings, fmt.Sprintf("pad%d-%d", bi, k))
+					}
+				}
+			}
+		}
 		dmg := map[int]pbfw.Damage{pos: {Kind: cl.name, Arg: c.Int("arg")}}
 		data, _ := f.Encode(dmg)
 		procs := int(c.Int("procs"))
@@ -391,7 +404,7 @@ func init() {
 	fw.Register(&fw.Prop{
 		ID:    "C06",
 		Level: "fault_enumeration",
-		Rule: "(a) every byte offset 0..len of small generated files (3-6 blocks) as a cut point, with 1 and 3 decoders; (b) 43 damage classes (size fields, raw_size, deflate stream, adler, blob encoding, block type, required feature, missing/short/long columns, out-of-range string indexes in 9 places, plain node group, garbage at three levels) x block position {header, first, middle, last} x decoders; (c) a non-EOF I/O error injected at every Read call index. Each case runs in a child process so that a crash or hang is an observation of that case. " +
+		Rule: "(a) every byte offset 0..len of small generated files (3-6 blocks) as a cut point, with 1 and 3 decoders; (b) 44 damage classes (size fields, raw_size, deflate stream, adler, blob encoding, block type, required feature, missing/short/long columns, out-of-range string indexes in 9 places, plain node group, garbage at three levels) x block position {header, first, middle, last} x decoders; (c) a non-EOF I/O error injected at every Read call index. Each case runs in a child process so that a crash or hang is an observation of that case. " +
 			"Signature = cut-position class (in/after size prefix, in/after BlobHeader, in Blob, boundary; header or data block), or (damage class, position), or (chunk size, decoders) for I/O faults.",
 		Assumptions: []string{
 			"a cut at offset 0, after the header block or after any data block is a block boundary (success); anything else must end in a non-nil error",
